@@ -5,6 +5,8 @@ using namespace vf;
 namespace {
 
 struct ME { int node = 0, time = 0; bool active = false; long due = -1; int events = 0; int state = 0; };
+// the nodes that send heartbeats and are asked about: 10..15 and node id 0 (the heartbeat of the 'master node' on identifier 700h - a consumer entry may name it)
+int pick_node(Ctx &c) { uint32_t k = c.t.below(7); return k == 6 ? 0 : 10 + (int)k; }
 int decode_state(uint8_t s) { return s == 0 ? 1 : s == 127 ? 2 : s == 5 ? 3 : s == 4 ? 4 : 0; }   // CO_MODE numbering, 0 = invalid
 
 void one_case(Ctx &c) {
@@ -53,7 +55,7 @@ void one_case(Ctx &c) {
     if (op == 0) { VLOG(c, "tick -> %ld", s.tick + 1); tick(); }
     else if (op == 1) { uint32_t n = 1 + c.t.below(30); VLOG(c, "%u ticks from %ld", n, s.tick); for (uint32_t i = 0; i < n; i++) tick(); }
     else if (op == 2) {   // heartbeat frame from a monitored or unmonitored node, arbitrary state byte
-      int n = 10 + (int)c.t.below(6); static const uint8_t SB[12] = {0, 127, 5, 4, 0x33, 127, 5, 0x85, 0xFF, 0x80, 0x84, 0x7E}; uint8_t sb = SB[c.t.below(12)];   // incl. defined codes with the reserved bit 7 set: no valid state
+      int n = pick_node(c); static const uint8_t SB[12] = {0, 127, 5, 4, 0x33, 127, 5, 0x85, 0xFF, 0x80, 0x84, 0x7E}; uint8_t sb = SB[c.t.below(12)];   // incl. defined codes with the reserved bit 7 set: no valid state
       if (mode == 0) continue;
       s.rx(Frame::mk(0x700u + n, 1, {sb}));
       std::vector<std::pair<int, int>> exp;
@@ -65,7 +67,7 @@ void one_case(Ctx &c) {
             got.empty() ? "" : (" (node " + std::to_string(got[0].first) + ", state " + std::to_string(got[0].second) + ")").c_str(), exp.size());
       CHECK(c, events == 0, "event-without-silence", "a heartbeat event was signalled on reception of a heartbeat");
     } else if (op == 3) { // write (node, time) to an entry through SDO or the API
-      int i = (int)c.t.below(nen); int n = c.t.chance(200) ? 10 + (int)c.t.below(6) : (int)c.t.below(128);
+      int i = (int)c.t.below(nen); int n = c.t.chance(200) ? pick_node(c) : (int)c.t.below(128);
       int tm = c.t.below(3) == 0 ? 0 : (c.t.chance(200) ? 2 + (int)c.t.below(10) : 20 + (int)c.t.below(200)) * (int)den;
       uint32_t v = (uint32_t)tm | (uint32_t)n << 16;
       bool dup = false; if (tm > 0) for (auto &m : me) if (m.active && m.node == n) dup = true;
@@ -87,13 +89,13 @@ void one_case(Ctx &c) {
       int ev = 0; for (auto &e : s.ev) if (e.k == EV_HBEVENT || e.k == EV_HBCHANGE) ev++;
       CHECK(c, ev == 0, "write-gives-no-notification", "a write to 1016h produced %d notification(s)", ev);
     } else if (op == 4) { // event counter read
-      int n = 10 + (int)c.t.below(6);
+      int n = pick_node(c);
       s.api_begin(); int r = CONmtGetHbEvents(&s.node->Nmt, (uint8_t)n); s.api_end("CONmtGetHbEvents");
       int e = -1; for (auto &m : me) if (m.active && m.node == n) { e = m.events; m.events = 0; }
       VLOG(c, "GetHbEvents(node %d) -> %d", n, r);
       CHECK(c, r == e, "event-counter", "CONmtGetHbEvents(node %d) returned %d, expected %d (saturating at 255, cleared by reading)", n, r, e);
     } else if (op == 5) { // last state
-      int n = 10 + (int)c.t.below(6);
+      int n = pick_node(c);
       s.api_begin(); int r = (int)CONmtLastHbState(&s.node->Nmt, (uint8_t)n); s.api_end("CONmtLastHbState");
       int e = 0; for (auto &m : me) if (m.active && m.node == n) e = m.state;
       CHECK(c, r == e, "last-state", "CONmtLastHbState(node %d) returned %d, expected %d", n, r, e);
@@ -132,7 +134,7 @@ void one_case(Ctx &c) {
 
 Registrar reg(Prop{
     "C11",
-    "Cases: 1016h with 1..4 entries, each initially configured (distinct nodes, time 2..220 ms) or empty; histories of up to 250 ops: ticks (single, bursts of 1..30, 'run until about k expiries' with k up to 300 so that the saturation at 255 is reached), heartbeat frames from monitored and unmonitored nodes with arbitrary state bytes, "
+    "Cases: 1016h with 1..4 entries, each initially configured (distinct nodes, time 2..220 ms) or empty; histories of up to 250 ops: ticks (single, bursts of 1..30, 'run until about k expiries' with k up to 300 so that the saturation at 255 is reached), heartbeat frames from monitored and unmonitored nodes (node ids 10..15 and 0) with arbitrary state bytes, "
     "SDO/API writes of (node,time) to any entry (node already monitored by this/another entry, time 0 / non-zero, re-targeting an active entry), CONmtGetHbEvents, CONmtLastHbState, SDO read-back, NMT state changes. "
     "Oracle: reference monitor per entry: armed by the first heartbeat, event callback + counter exactly at last_hb + T and every further T, counter saturating at 255 and cleared by reading, change callback iff the decoded state differs, write rules (0604 0043h and nothing changes / time 0 deactivates exactly that entry), other entries' schedules undisturbed. "
     "Non-trivial: >= 2 entries active at some point and >= 1 write after monitoring had started. Distinct = distinct decoded choice sequence.",
